@@ -250,10 +250,11 @@ Qed.
 
 (* The tie replays recorded rounds (settle_rounds: per round the dirty cells, the source rows and the summary
    rows the engine had when the round began; reference clean-up of chained summary tables may rewrite cells
-   between rounds).  When nothing is rewritten - every round has the same source rows and starts from the table
-   the model itself has - that is settle_trace, to which C12_incremental_is_full applies. *)
+   between rounds; a cell another formula needs is evaluated before its turn).  When nothing is rewritten - every
+   round has the same source rows, starts from the table the model itself has, and evaluates in ascending row id
+   order - that is settle_trace, to which C12_incremental_is_full applies. *)
 Theorem C12_recorded_rounds_are_the_trace : forall rounds kinds prev src summ,
-  rounds_follow kinds prev src summ rounds ->
+  NoDup (map fst src) -> rounds_follow kinds prev src summ rounds ->
   settle_rounds kinds prev summ rounds =
   settle_trace kinds prev src summ (map (fun r : round => fst (fst r)) rounds).
 Proof. exact settle_rounds_const. Qed.
@@ -265,3 +266,11 @@ Example C12_example_rounds :
   settle_rounds ex_kinds prev summ [([3], ex_src, summ); ([], ex_src, summ)] =
   Some [ (2, [AInt 1; AStr [98]], [1; 3]); (3, [AInt 1; AStr [97]], [1]); (4, [AInt 1; AStr []], [2]) ].
 Proof. split; [|vm_compute; reflexivity]. cbn [rounds_follow]. repeat split; vm_compute; reflexivity. Qed.
+
+(* out-of-turn evaluation: record 3 first, then 1 (both miss their keys): ids follow the evaluation order *)
+Example C12_example_order :
+  settle_rounds ex_kinds [] [] [([3; 1], ex_src, [])] =
+  Some [ (1, [AInt 1; AStr [98]], [1; 3]); (2, [AInt 1; AStr [97]], [1]) ] /\
+  settle_rounds ex_kinds [] [] [([1; 3], ex_src, [])] =
+  Some [ (1, [AInt 1; AStr [97]], [1]); (2, [AInt 1; AStr [98]], [1; 3]) ].
+Proof. split; vm_compute; reflexivity. Qed.
